@@ -414,6 +414,7 @@ func (c *Ctx) mck(which map[string]bool) {
 			n++
 			a := c.acc("MCK-6", cl, "exchange-closed-on-exit-unless-ErrClosed-or-indefinite-block")
 			s := c.acc("MCK-6", cl, "scripted-errors-are-delivered")
+			blk := c.acc("MCK-6", cl, "block-entry:zero-delay-ends-without-close,else-sleeps(Delay)")
 			for _, p := range c.Paths("MCK-6", cl) {
 				if p.End == pathx.KReturn {
 					closed := p.Index(0, func(e *pathx.Event) bool { return e.Kind == pathx.KClose }) >= 0
@@ -451,6 +452,29 @@ func (c *Ctx) mck(which map[string]bool) {
 							}
 						}
 					}
+					// a block entry: indefinite (Delay zero) ends the goroutine without close, any other delays for Delay
+					if isBlock {
+						zero, nonZero := false, false
+						for _, cm := range assumed(p, 0, -1) {
+							if roleKey(cm.X) == "ExchangeBlock.Delay" && isK(cm.Y, 0) {
+								zero = zero || cm.Op == token.EQL
+								nonZero = nonZero || cm.Op == token.NEQ
+							}
+						}
+						slept := p.Index(0, func(e *pathx.Event) bool {
+							return isStd(e, "time.Sleep") && len(e.Args) == 1 && roleKey(e.Args[0]) == "ExchangeBlock.Delay"
+						}) >= 0
+						switch {
+						case !zero && !nonZero:
+							blk.fail(p, len(p.Events)-1, "a block entry is passed without its Delay being examined: an indefinite block (Delay zero) must end the exchange without closing it")
+						case zero && p.End != pathx.KReturn:
+							blk.fail(p, len(p.Events)-1, "an indefinite block does not end the goroutine")
+						case nonZero && !slept:
+							blk.fail(p, len(p.Events)-1, "a block entry with a delay does not sleep for that delay")
+						default:
+							blk.pass()
+						}
+					}
 					iter := p.Index(0, func(e *pathx.Event) bool { return isStd(e, "errors.Is") }) >= 0
 					if iter && !isBlock {
 						if p.Index(0, func(e *pathx.Event) bool { return e.Kind == pathx.KSend }) >= 0 {
@@ -463,6 +487,7 @@ func (c *Ctx) mck(which map[string]bool) {
 			}
 			a.done(2, "closed exactly on the exits that are neither after ErrClosed nor an indefinite block")
 			s.done(2, "every non-block entry is sent")
+			blk.done(2, "Delay is examined; zero returns, non-zero sleeps")
 		}
 		c.S.Floor("MCK-6", "exchange stub goroutines", n, 1)
 	}
